@@ -1,7 +1,7 @@
 ----------------------------- MODULE SyntaxTrace -----------------------------
 (* C17 verdicts: each record is one sentence of Syntax.tla replayed into the real parser class; *)
-(* `got` is what an independent extractor read back from the parse tree ("REJECTED" if the      *)
-(* parser raised).  In-grammar sentences must be recovered exactly; near-misses must be          *)
+(* `got` is what an independent extractor read back from the parse tree (rejected: the parser  *)
+(* raised; ~readable: the parser returned a tree the extractor cannot walk).  In-grammar sentences must be recovered exactly; near-misses must be          *)
 (* rejected.                                                                                     *)
 EXTENDS Naturals, Sequences, TLC, Json, IOUtils
 Recs == JsonDeserialize(IOEnv.SYNTAX_BATCH).recs
@@ -11,6 +11,7 @@ Next == UNCHANGED r
 Spec == Init /\ [][Next]_r
 R == Recs[r]
 Clause == IF R.ok /\ R.rejected THEN "a sentence of the grammar was rejected"
+          ELSE IF R.ok /\ ~R.readable THEN "a sentence of the grammar was accepted but the tree returned cannot be read back (malformed tree)"
           ELSE IF R.ok /\ R.got # R.expect THEN "parsed structure differs from the structure written"
           ELSE IF ~R.ok /\ ~R.rejected THEN "text outside the grammar was accepted"
           ELSE "ok"
